@@ -5,6 +5,7 @@ The accumulation is a left fold of the same-period merge of C19 over the compone
 of the components' figures, hence independent of the order of the list.
 -/
 import FeemsProofs.C19
+import FeemsProofs.C10Component
 
 set_option linter.unusedSimpArgs false
 set_option linter.unusedVariables false
